@@ -176,8 +176,8 @@ func classifyLoop(c *Ctx, l loopInfo) (kind string, regular bool, detail string)
 			}
 		}
 	}
-	// queue drain: cond Len()>0 / len(x)>0
-	if lit.Kind == "cmp" && lit.Op == token.GTR {
+	// queue drain: cond Len()>0 / len(x)>0 (or the exit form Len()==0 / len(x)==0)
+	if lit.Kind == "cmp" && (lit.Op == token.GTR || lit.Op == token.EQL) {
 		if k, ok := core.ConstInt(lit.Y); ok && k == 0 {
 			if cl, ok := lit.X.(*ssa.Call); ok {
 				n := core.CalleeName(cl.Common())
